@@ -25,17 +25,17 @@ CHECKS = {
     ),
     'C03': dict(
         pkg='./c03', test='TestC03', level='exploration',
-        quick=dict(shards=4, checks=5000),
-        thorough=dict(shards=16, checks=360000, budget_s=3000),
+        quick=dict(shards=4, checks=5000, extra=[dict(test='TestC03Wire', checks=150, shards=4)]),
+        thorough=dict(shards=16, checks=360000, budget_s=3000, extra=[dict(test='TestC03Wire', checks=6000, shards=8)]),
         level_text=('Differential check of the envelope in both directions against an independent MTProto-1.0 implementation '
                     '(KDF, AES-IGE, layout) acting as conformant server: generated keys/salts/ids/bodies plus every body length '
-                    '0..1100 (0..65536 thorough) once per direction.'),
+                    '0..1100 (0..65536 thorough) once per direction. At the socket: sequences of reference-sealed packets of one session, their msg_ids rising, falling, shuffled or repeated, are read through transport.ReadMsg over loopback TCP and each must come back as the message the key holder sealed; what the transport writes is opened by the reference.'),
         technique='property-based differential testing (rapid) against an independent MTProto 1.0 envelope implementation',
         rule=('cases = (direction c2s|s2c|plain, 256-byte auth key incl. all-zero/all-0xff/leading-zero keys, salt, session id, msg_id with the '
               "sender's parity, seq_no, ack flag, body of 0..65536 bytes); c2s: Encrypted.Serialize is opened by the reference server; s2c: a "
               'reference-sealed packet with 0-15 padding bytes is opened by DeserializeEncrypted; plain: exact byte layout. Non-trivial: '
               'body length > 0; distinct by hash of all inputs.'),
-        must_hit=['c2s:len%%16=%d' % r for r in range(16)] + ['s2c:len%%16=%d' % r for r in range(16)] + ['c2s:ack=true', 'c2s:ack=false', 'c2s:seq_no>=2^31', 'c2s:derived-fields-stale', 'c2s:derived-fields-consistent', 'plain:len%16=0', 'concurrent:c2s', 'concurrent:s2c'],
+        must_hit=['c2s:len%%16=%d' % r for r in range(16)] + ['s2c:len%%16=%d' % r for r in range(16)] + ['c2s:ack=true', 'c2s:ack=false', 'c2s:seq_no>=2^31', 'c2s:derived-fields-stale', 'c2s:derived-fields-consistent', 'plain:len%16=0', 'concurrent:c2s', 'concurrent:s2c', 'wire', 'wire:msg_id-not-above-the-previous-one', 'wire:server-clock-after-2038', 'wire:client-writes', 'wire:order=redelivery'],
         assumptions=['crypto/aes, crypto/sha1 of the standard library', 'client seq_no counter is even and client msg_ids are multiples of 4 (as the client produces them)',
                      'padding content is not compared (the protocol leaves it free)'],
     ),
